@@ -195,7 +195,7 @@ func (d *Descriptor) readAsSlice(out Outputter, data []byte) (n int, err error) 
 	}
 	elt := &d.Elements[0]
 	switch elt.Type {
-	case FieldTypeFloat32, FieldTypeFloat64, FieldTypeInt, FieldTypeUint:
+	case FieldTypeFloat32, FieldTypeFloat64, FieldTypeInt, FieldTypeUint, FieldTypeFlatInt, FieldTypeBool:
 		// If data is generated by protobuf this could be an element of a slice.
 		// We won't support that for now. So this is either a float64 or float32
 		offset := 0
@@ -211,7 +211,7 @@ func (d *Descriptor) readAsSlice(out Outputter, data []byte) (n int, err error) 
 		}
 		return offset, nil
 
-	case FieldTypeStruct, FieldTypeSlice, FieldTypeString:
+	case FieldTypeStruct, FieldTypeSlice, FieldTypeString, FieldTypeTime:
 		count, n := plenccore.ReadVarUint(data)
 		if n < 0 {
 			return 0, fmt.Errorf("corrupt data looking for WTSlice count")
